@@ -281,13 +281,15 @@ Example objstm_stream_shaped_self :
   get_in [(10, EInStm 3); (3, EDirect (SStm 3 []))]%N [(10, MStreamShaped 10)]%N 10%N = Err Malformed.
 Proof. vm_compute. reflexivity. Qed.
 
-(* ---- (7) nesting depth of the object scanner --------------------------- *)
+(* ---- (7) nesting depth and reference look-back of the object scanner ---- *)
 
-(* for EVERY token sequence: ReadObject either fails with Malformed or returns,
-   the containers open at any moment (the value of s.nestDepth, hence the
-   depth of the Go recursion ReadObject -> ReadArray/ReadDict -> ReadObject)
+(* for EVERY token sequence: ReadObject either fails with Malformed or returns -
+   never Panic: the two type assertions of ReadArray's `n g R` look-back cannot
+   fail, because integersSeen never exceeds the number of trailing Integer
+   elements; the containers open at any moment (the value of s.nestDepth, hence
+   the depth of the Go recursion ReadObject -> ReadArray/ReadDict -> ReadObject)
    never exceed maxScannerNestDepth; one step per token, so fuel |toks|+1
-   suffices (never OutOfFuel, never Panic) *)
+   suffices (never OutOfFuel) *)
 Theorem nest_bounded :
   forall (toks : list tok),
     match read_object toks with
@@ -299,16 +301,31 @@ Print Assumptions nest_bounded.
 
 Theorem nest_bounded_from_any_state :
   forall (fuel : nat) (st : list frame) (toks : list tok),
-    length toks < fuel -> length st <= maxd ->
-    match run fuel st toks 0 with
+    length toks < fuel -> length st <= maxd -> Forall fok st ->
+    match run true fuel st toks 0 with
     | Ok (rest, h) => h <= maxd
     | Err c => c = Malformed
     end.
 Proof. exact nest_bounded_general_lemma. Qed.
 Print Assumptions nest_bounded_from_any_state.
 
+(* the variant `integersSeen -= 2` after a reference has been assembled
+   (seeded change C05-5) panics on [ 0 0 612 3 0 R 792 R ]; the code as it is
+   reports Malformed *)
+Theorem integers_seen_refuted :
+  read_object_gen false [TAO; TI; TI; TI; TI; TI; TR; TI; TR; TAC] = Err Panic /\
+  read_object_gen true [TAO; TI; TI; TI; TI; TI; TR; TI; TR; TAC] = Err Malformed.
+Proof. exact integers_seen_refuted_lemma. Qed.
+Print Assumptions integers_seen_refuted.
+
 Example nest_small : read_object [TDO; TN; TAO; TA; TDO; TDC; TAC; TDC; TA] = Ok ([TA], 3).
 Proof. vm_compute. reflexivity. Qed.
+
+Example nest_refs :
+  read_indirect true [TAO; TI; TI; TR; TI; TI; TI; TR; TAC] = Ok true /\
+  read_indirect true [TDO; TN; TI; TI; TR; TN; TI; TDC] = Ok true /\
+  read_indirect true [TI; TI; TR] = Ok true.
+Proof. repeat split; vm_compute; reflexivity. Qed.
 
 Example nest_at_limit :
   read_object (repeat TAO 256 ++ repeat TAC 256) = Ok ([], 256) /\
